@@ -6,6 +6,7 @@ d=/root/scratch/hr_$fam; rm -rf $d; mkdir -p $d; cd $d
 python3 - <<PY
 import json,collections
 d=json.load(open('$fam.json'));print(d['distribution']);
+d['hits']=d['hits'] or []
 print('hits',collections.Counter(h['signature'] for h in d['hits']))
 seen=set()
 for h in d['hits']:
